@@ -68,17 +68,41 @@ fn run_one(log: &mut Log, tag: &str, text: &[u8], alpha: &[u8], k: u32, s: usize
         }
     };
     let it0 = text.len() + k as usize + s;
+    let n = text.len();
+    if n == 1 {
+        log.oblige("text_len_1");
+    }
+    if n == 2 {
+        log.oblige("text_len_2");
+    }
+    if k == 1 {
+        log.oblige("occ_rate_1");
+    }
+    let third = pats.len() / 3;
     match own {
         0 => {
+            // borrowed components; after a third of the searches the index is cloned, copy and original
+            // take turns afterwards
             let fm = FMIndex::new(&b, &l, &o);
-            searches(log, &fm, &resolve, pats, it0);
+            searches(log, &fm, &resolve, &pats[..third], it0);
+            let copy = fm.clone();
+            for (i, ch) in pats[third..].chunks(2).enumerate() {
+                if i % 2 == 0 {
+                    searches(log, &copy, &resolve, ch, it0 + i);
+                } else {
+                    searches(log, &fm, &resolve, ch, it0 + i);
+                }
+            }
+            log.oblige("clone_fmindex_both_continue");
+            again(log, &fm, &resolve, pats, it0);
         }
         1 => {
-            // owned components; after half of the searches the index (and the sampled suffix array used
-            // to resolve positions) goes through a Serialize/Deserialize round trip
+            // owned components; after a third of the searches the index (and the sampled suffix array used
+            // to resolve positions) goes through a Serialize/Deserialize round trip; after another third the
+            // result is clone_from()-ed into an index that was built for ANOTHER text and has answered
+            // already; copy and original take turns afterwards
             let fm = FMIndex::new(b.clone(), l.clone(), o.clone());
-            let half = pats.len() / 2;
-            searches(log, &fm, &resolve, &pats[..half], it0);
+            searches(log, &fm, &resolve, &pats[..third], it0);
             let mut back: Option<(FMIndex<BWT, Less, Occ>, Option<SampledSuffixArray<BWT, Less, Occ>>)> = None;
             let r = log.call("serde", json!({}), || {
                 let fm2: FMIndex<BWT, Less, Occ> = serde_json::from_str(&serde_json::to_string(&fm).unwrap()).unwrap();
@@ -96,11 +120,41 @@ fn run_one(log: &mut Log, tag: &str, text: &[u8], alpha: &[u8], k: u32, s: usize
                         None => iv.occ(&sa),
                     }
                 };
-                searches(log, &fm2, &resolve2, &pats[half..], it0 + half);
+                searches(log, &fm2, &resolve2, &pats[third..2 * third], it0 + third);
                 log.oblige("serde_roundtrip_fmindex");
                 if s > 1 {
                     log.oblige("serde_roundtrip_sampled_sa");
                 }
+                let mut used: Option<FMIndex<BWT, Less, Occ>> = None;
+                let r = log.call("clone_from", json!({}), || {
+                    let mut other_text: Vec<u8> = text[..n - 1].iter().rev().cloned().collect();
+                    other_text.push(text[0]);
+                    other_text.push(text[n - 1]);
+                    let osa = suffix_array(&other_text);
+                    let ob = bwt(&other_text, &osa);
+                    let ol = less(&ob, &alphabet);
+                    let mut oo = Occ::new(&ob, k + 1, &alphabet);
+                    let _ = oo.get(&ob, 0, text[n - 1]);
+                    let mut u = FMIndex::new(ob.clone(), ol, oo.clone());
+                    let _ = u.backward_search(text[..1].iter()); // the other index has answered
+                    oo.clone_from(&o); // the Occ of this text cloned into the used Occ of the other text
+                    let src = FMIndex::new(b.clone(), l.clone(), oo);
+                    u.clone_from(&src);
+                    used = Some(u);
+                    json!({})
+                });
+                if r["st"] == "ok" {
+                    let copy = used.unwrap();
+                    for (i, ch) in pats[2 * third..].chunks(2).enumerate() {
+                        if i % 2 == 0 {
+                            searches(log, &copy, &resolve2, ch, it0 + i);
+                        } else {
+                            searches(log, &fm2, &resolve2, ch, it0 + i);
+                        }
+                    }
+                    log.oblige("clone_from_fmindex_other_text_both_continue");
+                }
+                again(log, &fm, &resolve, pats, it0);
             }
         }
         _ => {
@@ -109,7 +163,23 @@ fn run_one(log: &mut Log, tag: &str, text: &[u8], alpha: &[u8], k: u32, s: usize
             let half = pats.len() / 2;
             searches(log, &fm, &resolve, &pats[..half], it0);
             searches(log, &fm2, &resolve, &pats[half..], it0 + half);
+            again(log, &fm2, &resolve, pats, it0);
         }
+    }
+}
+
+/// Order independence and the empty pattern: a few of the earlier patterns once more, in reverse
+/// order, on an object that has answered everything else in between; then the empty pattern.
+fn again<I: FMIndexable>(log: &mut Log, fm: &I, resolve: &dyn Fn(&Interval) -> Vec<usize>, pats: &[Vec<u8>], it0: usize) {
+    let mut back: Vec<Vec<u8>> = pats.iter().take(4).cloned().collect();
+    back.reverse();
+    searches(log, fm, resolve, &back, it0 + 3);
+    if !back.is_empty() {
+        log.oblige("searches_repeated_in_reverse_order");
+    }
+    if it0 % 2 == 0 {
+        searches(log, fm, resolve, &[vec![]], 0);
+        log.oblige("empty_pattern");
     }
 }
 
